@@ -153,6 +153,53 @@ def rerun_C20(inp):
     return d
 
 
+# ------------------------------------------------------------------------------------------------ SeenSet.discard (C12)
+def standin_C12_retract(seed, args):
+    """SeenSet.add / discard / check, exhaustively over small histories on the real code: constraints are dict OBJECTS (two
+    distinct objects may be equal); discard(a) takes back exactly the object a - all its occurrences, nothing else - and
+    all_seen is what the remaining constraints say (an empty constraint covers everything)."""
+    from entity_query_language.cache_data import SeenSet
+    pool_specs = [{}, {1: 'a'}, {1: 'a'}, {1: 'b'}, {1: 'a', 2: 'x'}, {2: 'x'}]      # index 1 and 2: equal, distinct objects
+    lookups = [{1: 'a'}, {1: 'b'}, {2: 'x'}, {1: 'a', 2: 'x'}, {1: 'b', 2: 'y'}]
+    max_len = args.get('max_adds', 3)
+    failures, n = [], 0
+    for k in range(0, max_len + 1):
+        for hist in itertools.product(range(len(pool_specs)), repeat=k):
+            for victim in range(len(pool_specs)):
+                n += 1
+                pool = [dict((kk, _mk(v)) for kk, v in spec.items()) for spec in pool_specs]
+                s = SeenSet()
+                ref = []          # reference: the list of added objects (add stops recording once everything is seen)
+                everything = False
+                for i in hist:
+                    s.add(pool[i])
+                    if not everything:
+                        ref.append(pool[i])
+                        if not pool[i]:
+                            everything = True
+                s.discard(pool[victim])
+                ref = [c for c in ref if c is not pool[victim]]
+                want_all = any(not c for c in ref)
+                got_ids = [id(c) for c in s.seen]
+                if got_ids != [id(c) for c in ref] or bool(s.all_seen) != want_all:
+                    failures.append({'what': 'discard', 'adds': list(hist), 'discarded': victim, 'got': [pool.index(c) if c in pool else '?' for c in s.seen],
+                                     'want': [[id(p) for p in pool].index(id(c)) for c in ref], 'all_seen': [bool(s.all_seen), want_all],
+                                     'signature': {'kind': 'discard'}})
+                    continue
+                for q in lookups:
+                    qq = {kk: _mk(v) for kk, v in q.items()}
+                    want = want_all or any(all(kk in qq and qq[kk] == v for kk, v in c.items()) for c in ref)
+                    if bool(s.check(qq)) != want:
+                        failures.append({'what': 'check-after-discard', 'adds': list(hist), 'discarded': victim, 'lookup': q,
+                                         'got': bool(s.check(qq)), 'want': want, 'signature': {'kind': 'check-after-discard'}})
+                        break
+                if len(failures) > 5:
+                    break
+    return {'evaluations': n, 'exhaustive': True,
+            'scope': f"SeenSet: <= {max_len} additions from a pool of 6 constraint objects (two of them equal, one empty), one discard "
+                     f"of any pool object, 5 lookups", 'failures': failures[:3], 'n_failures': len(failures)}
+
+
 # ------------------------------------------------------------------------------------------------ reference-semantics oracle
 def standin_oracle(seed, args):
     """random small queries (generator parameters in args['family']) evaluated by the real engine and by brute force
